@@ -600,3 +600,38 @@ example : bpFunc false [0x31, 0x31, 0x33, 0x30] [0x32, 0x38] 0x1157 = .ok (some 
     ∧ bpFunc false [0x31, 0x31, 0x33, 0x30] [0x32, 0x38] 0x1158 = .ok none := by decide
 -- asm_with_continue test: start 0x51fd1 (thumb bit), size 8, function end beyond → aligned start, longer len
 example : asmPlan .arm 0x51fd1 8 true (some 0x52001) = .ok ⟨0x51fd0, 0x30, 0x3f⟩ := by decide
+
+/-! ### FILE / INLINE_ORIGIN ids that the index does not declare (the mechanism of seeded C08-4) -/
+
+/-- `ItemCache::get_string(id)` over **any** FILE / INLINE_ORIGIN list — sorted or not, dense or sparse, from a
+stale or corrupted `.symindex` — is a total function (no index past the end of the list: the model reads through
+`items[·]?` only where the binary search of `get_vec_index`, index.rs:460-464, found an entry), and it yields a
+string only for an id that some entry of the list declares: a line or INLINE record that names an undeclared id
+gets no file / origin name, whatever the id and whatever the list. -/
+theorem C08_item_lookup_only_declared (lineParser : List UInt8 → Option (Nat × List UInt8))
+    (text : List UInt8) (items : List BP.FEntry) (idx : Nat) (name : List UInt8)
+    (h : BP.getString lineParser text items idx = some name) : ∃ e ∈ items, e.index = idx := by
+  unfold BP.getString at h
+  split at h
+  · cases h
+  · rename_i e he
+    cases hb : BP.bsearchEq (fun e => idx < e.index) (fun e => e.index = idx) items with
+    | none => rw [hb] at he; cases he
+    | some i =>
+      rw [hb] at he
+      simp only [Option.bind_some] at he
+      refine ⟨e, List.mem_of_getElem? he, ?_⟩
+      unfold BP.bsearchEq at hb
+      split at hb
+      · cases hb
+      · dsimp only at hb
+        split at hb
+        · cases hb
+        · rename_i x hx
+          split at hb
+          · rename_i heq
+            cases hb
+            rw [hx] at he
+            cases he
+            simpa using heq
+          · cases hb
